@@ -1,6 +1,7 @@
 import SppModel.Lemmas.KernelLink
 import SppModel.Lemmas.Loop
 import SppModel.Generated.LoopKernels
+import SppModel.Frozen.LoopKernels
 /-!
 # Kernel specification — `kernels.invert_freq` as translated computes its definition (C07)
 
@@ -11,10 +12,10 @@ of an index expression, a loop bound or an operand in the source changes the gen
 the proof.
 -/
 namespace SppModel.KernelSpecs
-open SppModel SppModel.Loop SppModel.Generated.LoopKernels SppModel.KernelSpecs.LinkB
+open SppModel SppModel.Loop SppModel.Frozen.LoopKernels SppModel.KernelSpecs.LinkB
 
 /-- the kernel was recognised by the translator on this run -/
-theorem invert_freq_translated : ∀ f ∈ translationFailures, f.1 ∉ ["kernels_py_loops", "loop_invert_freq"] := by decide
+theorem invert_freq_translated : ∀ f ∈ Generated.LoopKernels.translationFailures, f.1 ∉ ["kernels_py_loops", "loop_invert_freq"] := by decide
 
 /-- `invert_freq`: every spectrum reversed; cells beyond `C*n` keep the allocation value (modelled 0) -/
 theorem invert_freq_spec (arr : Nat → Rat) (C n k : Nat) :
@@ -55,7 +56,7 @@ theorem invert_block_link (flat : List Int) (C : Nat) (b : Plan.Blk) (t c : Nat)
 /-- the executable twin run by the correspondence check (`K` requests of the driver) is the same function:
     it only tabulates the loop state after each iteration (`Loop.forRangeM_eq`) -/
 theorem invert_freq_exec_eq (memo : Nat) (arr : Nat → Rat) (C n : Nat) :
-    invert_freq_exec memo arr C n = invert_freq arr C n := by
-  simp only [invert_freq_exec, invert_freq, Loop.forRangeM_eq]
+    Generated.LoopKernels.invert_freq_exec memo arr C n = Generated.LoopKernels.invert_freq arr C n := by
+  simp only [Generated.LoopKernels.invert_freq_exec, Generated.LoopKernels.invert_freq, Loop.forRangeM_eq]
 
 end SppModel.KernelSpecs
